@@ -551,6 +551,24 @@ func c06(run *ev.Run) int {
 			c06Case(run, seen, c.proto, c.codec, c.kind, cfg, key, h)
 		}
 	})
+	// declared-length lies (Content-Length unrelated to the body)
+	declaredLengthClient(run, "c06", 1<<20, func(key string, cl *svc.CLog, panicked any, hung bool, _ uint64, detail map[string]any) {
+		run.Count("calls", 1)
+		switch {
+		case hung:
+			run.Violation(key+"/hang", "client call did not return within 20 s", detail)
+		case panicked != nil:
+			detail["panic"] = fmt.Sprint(panicked)
+			run.Violation(key+"/panic", fmt.Sprintf("client call panicked: %v", panicked), detail)
+		default:
+			for _, e := range append([]error{cl.Err, cl.CloseErr}, cl.SendErrs...) {
+				if e != nil && !errors.Is(e, io.EOF) && !codedOrNil(e) {
+					run.Violation(key+"/uncoded", "operation returned an error that is not a coded *connect.Error: "+errStr(e), detail)
+					return
+				}
+			}
+		}
+	})
 	// function-of-status check
 	for k, codes := range seen.m {
 		run.Count("status.classes", 1)
